@@ -11,6 +11,7 @@ import (
 	"fmt"
 	"reflect"
 	"sort"
+	"strings"
 
 	"github.com/twmb/franz-go/pkg/kerr"
 )
@@ -133,6 +134,22 @@ func diffObs(a, b *observation) (out []obsDiff) {
 	}
 	if !reflect.DeepEqual(a.Commits, b.Commits) {
 		add("committed offsets", "before %v, after %v", a.Commits, b.Commits)
+	}
+	if reflect.DeepEqual(a.Listed, b.Listed) && len(a.Described) == len(b.Described) && !reflect.DeepEqual(a.Described, b.Described) {
+		// the same transactional ids and producer ids: is the only change a
+		// higher producer epoch?
+		onlyEpoch := true
+		for i := range a.Described {
+			ea, ra := splitEpoch(a.Described[i])
+			eb, rb := splitEpoch(b.Described[i])
+			if ra != rb || eb < ea {
+				onlyEpoch = false
+			}
+		}
+		if onlyEpoch {
+			add("transactional producer epoch bumped again", "before %v, after %v", a.Described, b.Described)
+			return out
+		}
 	}
 	if !reflect.DeepEqual(a.Listed, b.Listed) || !reflect.DeepEqual(a.Described, b.Described) {
 		add("transaction state (ListTransactions / DescribeTransactions)", "before %v %v, after %v %v", a.Listed, a.Described, b.Listed, b.Described)
@@ -269,6 +286,9 @@ func judge(run *wlRun, j int, o *observation) (fails []failure, c judgeCounts) {
 			}
 			if v.LSO < v.HWM && !anyOngoing(o.Listed) {
 				c.Dontcare["lso_below_hwm_without_ongoing_txn"]++
+				if dbgLSO != nil {
+					dbgLSO(run, j, where, v, o)
+				}
 			}
 		}
 	}
@@ -356,3 +376,20 @@ func anyOngoing(listed []string) bool {
 	}
 	return false
 }
+
+// splitEpoch removes the " epoch=N" field from a described transaction line.
+func splitEpoch(d string) (epoch int, rest string) {
+	i := strings.Index(d, " epoch=")
+	if i < 0 {
+		return -1, d
+	}
+	j := i + len(" epoch=")
+	k := j
+	for k < len(d) && d[k] >= '0' && d[k] <= '9' {
+		epoch = epoch*10 + int(d[k]-'0')
+		k++
+	}
+	return epoch, d[:i] + d[k:]
+}
+
+var dbgLSO func(run *wlRun, j int, where string, v *partView, o *observation)
